@@ -305,6 +305,60 @@ def r4_tables(cx):
     cx.require(ok, hd[0] if hd else fd, "headings are the header split by the header delimiter", construct=short(hd[0]) if hd else "(none)")
 
 
+def r5_ini_value_passthrough(cx):
+    """The grammar of iniparser.parse_doc decides what a value is (continuation lines, inline comment marker, quoting).  The two mapping functions that
+    wrap the parsed pieces into Directive / Section nodes must hand the parsed value on untouched: any operation applied to it there (a slice, a
+    regex substitution, a split) changes option values after the grammar has delimited them, and the document no longer reads back as rendered."""
+    cx.rule("C15.R5", "the INI tree builders pass the parsed value / children through unchanged", floor=2)
+    m = cx.repo.module("insights.parsr.iniparser")
+    pd = m.func("parse_doc", "C15.R5")
+    for fname, ctor, kwname in (("to_directive", "Directive", "attrs"), ("to_section", "Section", "children")):
+        fns = [n for n in pd.body if isinstance(n, FUNC_TYPES) and n.name == fname]
+        if not fns:
+            cx.unknown(pd, "no %s mapping function in parse_doc" % fname)
+            continue
+        fn = fns[0]
+        ctor_calls = [x for x in find_calls(fn.body, name=ctor)]
+        kv = kwarg(ctor_calls[0], kwname) if len(ctor_calls) == 1 else None
+        if kv is None or not isinstance(kv, ast.Name):
+            cx.unknown(fn, "%s(%s=<local>) not found in %s" % (ctor, kwname, fname))
+            continue
+        var = kv.id
+        bad = []
+        for u in [n for n in walk_body(fn.body) if isinstance(n, ast.Name) and n.id == var and isinstance(n.ctx, ast.Load)]:
+            p_ = parent(u)
+            if p_ is kv or u is kv:
+                continue
+            if isinstance(p_, ast.keyword) and p_.arg == kwname:
+                continue
+            if isinstance(p_, ast.Compare) and all(isinstance(o, (ast.Is, ast.IsNot)) for o in p_.ops):
+                continue            # rest is (not) None
+            if isinstance(p_, (ast.List, ast.Tuple)) and len(p_.elts) == 1:
+                continue            # [rest]
+            if isinstance(p_, (ast.If, ast.IfExp, ast.BoolOp, ast.UnaryOp)) and not isinstance(getattr(p_, "op", None), (ast.USub, ast.Invert)):
+                continue            # truth test / selection between the value and a default
+            if isinstance(p_, ast.Call) and call_name(p_) in ("isinstance", "list", "tuple") and u in p_.args:
+                continue
+            if isinstance(p_, (ast.Assign, ast.Return)):
+                continue            # plain rebinding / returning of the value itself
+            bad.append(u)
+        # every (re)binding of the variable is the parsed piece itself, wrapped in a list at most
+        for a in assigns_to(fn, var):
+            v = a.value if isinstance(a, ast.Assign) else None
+            if v is None:
+                bad.append(a)
+                continue
+            if isinstance(v, (ast.Name, ast.Tuple)):        # name, rest = x
+                continue
+            allowed = all(isinstance(x, (ast.Name, ast.List, ast.Tuple, ast.IfExp, ast.Compare, ast.Constant, ast.Load, ast.Store, ast.Is, ast.IsNot, ast.BoolOp, ast.Or, ast.And, ast.Not, ast.UnaryOp, ast.Subscript))
+                          or (isinstance(x, ast.Call) and call_name(x) in ("list", "tuple")) for x in ast.walk(v))
+            subs = [x for x in ast.walk(v) if isinstance(x, ast.Subscript)]
+            if not allowed or any(not (isinstance(x.value, ast.Name) and x.value.id != var and isinstance(x.slice, ast.Constant)) for x in subs):
+                bad.append(a)
+        cx.require(not bad, bad[0] if bad else fn, "%s hands the parsed %s to %s(%s=...) without operating on it" % (fname, "value" if kwname == "attrs" else "children", ctor, kwname),
+                   construct=short(stmt_of(bad[0]) if bad and not isinstance(bad[0], ast.stmt) else bad[0], 100) if bad else "%s -> %s(%s=%s)" % (fname, ctor, kwname, var))
+
+
 def run(cx):
     cx.extra["explanation"] = ("C15: normalisation-before-lookup taint rule over every IniConfigFile accessor (option -> lower, section -> strip) against the builder's stored keys, "
                                "matcher table / conjunction rule of keyword_search, first-separator and comment rules, slicing/zip shape of the two table helpers.")
@@ -313,3 +367,4 @@ def run(cx):
     cx.guard(r2_keyword_search)
     cx.guard(r3_kv_and_comments)
     cx.guard(r4_tables)
+    cx.guard(r5_ini_value_passthrough)
